@@ -46,6 +46,8 @@ func (eq equator) equalMessage(mx, my pref.Message) bool {
 	mx.Range(func(fd pref.FieldDescriptor, vx pref.Value) bool {
 		vy := my.Get(fd)
 		switch {
+		case ignored(fd):
+			// not compared, whichever of the messages carry it
 		case my.Has(fd):
 			equal = eq.equalField(fd, vx, vy)
 		case eq.zeroComparable(fd):
@@ -62,6 +64,7 @@ func (eq equator) equalMessage(mx, my pref.Message) bool {
 	// fields only y has populated
 	my.Range(func(fd pref.FieldDescriptor, vy pref.Value) bool {
 		switch {
+		case ignored(fd):
 		case mx.Has(fd):
 			// compared above
 		case eq.zeroComparable(fd):
@@ -94,11 +97,16 @@ func (eq equator) equalZero(fd pref.FieldDescriptor, x, y pref.Value) bool {
 	return ok && equal
 }
 
+// ignored reports whether fd is a field the comparison skips: PullResponse.Change.change_time.
+// This is the case we've added to proto.Equal.
+func ignored(fd pref.FieldDescriptor) bool {
+	return fd.Name() == "change_time" && fd.ContainingMessage().Name() == "Change"
+}
+
 // equalField compares two fields.
 func (eq equator) equalField(fd pref.FieldDescriptor, x, y pref.Value) bool {
 	switch {
-	// This is the case we've added, ignore PullResponse.Change.change_time
-	case fd.Name() == "change_time" && fd.ContainingMessage().Name() == "Change":
+	case ignored(fd):
 		return true
 	case fd.IsList():
 		return eq.equalList(fd, x.List(), y.List())
